@@ -9,6 +9,8 @@
   * SolveResultRegistry::SolveResultRegistry()  (src/solver.cc)            -> pre-registered table
   * StdBackend::ReportSolution2AMPL             (include/mp/backend-std.h) -> the guards under which the
     text "objective {}" is written to the solve message, and the first argument of HandleSolution
+  * StdBackend::ReportIntermediateSolution, BackendWithModelManager::Handle[Feasible]Solution,
+    ModelManagerWithProblemBuilder::Handle[Feasible]Solution -> the code each hop forwards to the .sol writer
 
 Source: clang++-14 -ast-dump=json.  Anything not understood raises TranslateError
 (prints TRANSLATE-ERROR, exit status 3): a loud failure, never a silent default.
@@ -427,6 +429,69 @@ def translate_report(repo, work):
     return rt.obj_writes, a0
 
 
+
+# ------------------------------------------------------------------ the chain that carries the code to the .sol writer
+def callee_name(call):
+    c = strip(call['inner'][0])
+    return c.get('name') or c.get('member')
+
+
+def translate_forward(docs, cls, method, callee, known):
+    """`method` of `cls` must forward its first parameter as the first argument of exactly one call of
+    `callee`.  Returns a Lean expression in `c` for the code that reaches the callee:
+      5 arguments, first = first parameter  -> c
+      4 arguments (deprecated overload SolutionHandler::HandleFeasibleSolution(msg,x,y,obj), which
+                   substitutes sol::UNCERTAIN)  -> UNCERTAIN"""
+    ds = [d for d in docs if d.get('kind') == 'CXXMethodDecl' and d.get('name') == method
+          and any(x.get('kind') == 'CompoundStmt' for x in d.get('inner', []))]
+    if len(ds) != 1:
+        raise TranslateError('%s::%s: found %d definitions' % (cls, method, len(ds)))
+    d = ds[0]
+    params = [x['name'] for x in d['inner'] if x.get('kind') == 'ParmVarDecl']
+    body = [x for x in d['inner'] if x.get('kind') == 'CompoundStmt'][0]
+    calls = [c for k in ('CallExpr', 'CXXMemberCallExpr') for c in find_all(body, k) if c.get('inner') and callee_name(c) == callee]
+    if len(calls) != 1:
+        raise TranslateError('%s::%s: expected one call of %s, found %d' % (cls, method, callee, len(calls)))
+    args = [strip(a) for a in calls[0]['inner'][1:]]
+    if len(args) == 5:
+        a0 = args[0]
+        if a0.get('kind') == 'DeclRefExpr' and a0.get('referencedDecl', {}).get('kind') == 'ParmVarDecl' \
+                and params and a0['referencedDecl'].get('name') == params[0]:
+            return 'c'
+        raise TranslateError('%s::%s: first argument of %s is not the first parameter' % (cls, method, callee))
+    if len(args) == 4 and callee == 'HandleFeasibleSolution':
+        if 'UNCERTAIN' not in known:
+            raise TranslateError('deprecated overload used but sol::UNCERTAIN unknown')
+        return 'UNCERTAIN'
+    raise TranslateError('%s::%s: call of %s with %d arguments not understood' % (cls, method, callee, len(args)))
+
+
+def translate_chain(repo, work, known):
+    tu = os.path.join(work, 'backend_tu.cc')
+    tu2 = os.path.join(work, 'modelmgr_tu.cc')
+    open(tu2, 'w').write('#include "mp/model-mgr-with-pb.h"\n')
+    # StdBackend::ReportIntermediateSolution: HandleFeasibleSolution(SolveCode(), ...)
+    docs = [d for d in clang(tu, 'StdBackend::ReportIntermediateSolution', repo)
+            if d.get('kind') == 'CXXMethodDecl' and any(x.get('kind') == 'CompoundStmt' for x in d.get('inner', []))]
+    if len(docs) != 1:
+        raise TranslateError('StdBackend::ReportIntermediateSolution: found %d definitions' % len(docs))
+    body = [x for x in docs[0]['inner'] if x['kind'] == 'CompoundStmt'][0]
+    calls = [c for k in ('CallExpr', 'CXXMemberCallExpr') for c in find_all(body, k) if c.get('inner') and callee_name(c) == 'HandleFeasibleSolution']
+    if len(calls) != 1:
+        raise TranslateError('ReportIntermediateSolution: expected one HandleFeasibleSolution call, found %d' % len(calls))
+    a0 = strip(calls[0]['inner'][1])
+    if not (a0.get('kind') in ('CallExpr', 'CXXMemberCallExpr') and len(a0['inner']) == 1 and callee_name(a0) == 'SolveCode'):
+        raise TranslateError('ReportIntermediateSolution: first argument of HandleFeasibleSolution is not SolveCode()')
+    hops = {}
+    d1 = clang(tu, 'BackendWithModelManager::Handle', repo)
+    hops['hopBackendFeasible'] = translate_forward(d1, 'BackendWithModelManager', 'HandleFeasibleSolution', 'HandleFeasibleSolution', known)
+    hops['hopBackendFinal'] = translate_forward(d1, 'BackendWithModelManager', 'HandleSolution', 'HandleSolution', known)
+    d2 = clang(tu2, 'ModelManagerWithProblemBuilder::Handle', repo)
+    hops['hopModelMgrFeasible'] = translate_forward(d2, 'ModelManagerWithProblemBuilder', 'HandleFeasibleSolution', 'HandleFeasibleSolution', known)
+    hops['hopModelMgrFinal'] = translate_forward(d2, 'ModelManagerWithProblemBuilder', 'HandleSolution', 'HandleSolution', known)
+    return hops
+
+
 # ------------------------------------------------------------------ output
 def lean_str(s):
     return json.dumps(s, ensure_ascii=False)
@@ -438,6 +503,7 @@ def main(repo, out, work, inc=None):
     preds = translate_predicates(repo, work, known)
     reg = translate_registry(repo, known)
     writes, harg = translate_report(repo, work)
+    hops = translate_chain(repo, work, known)
     names = [n for n, _, _ in enum]
     o = ['/- GENERATED by translators/gen_status.py from include/mp/common.h (enum mp::sol::Status),',
          '   include/mp/backend-std.h (StdBackend::IsProblem*, ReportSolution2AMPL) and src/solver.cc',
@@ -477,8 +543,17 @@ def main(repo, out, work, inc=None):
     o.append('/-- first argument of the HandleSolution call -/')
     o.append('def codePassed (a : Answer) : Int := %s' % harg)
     o.append('')
+    o.append('/-! ## the chain that carries a code to the .sol writer: StdBackend -> BackendWithModelManager ->')
+    o.append('   ModelManagerWithProblemBuilder -> SolutionWriterImpl (each hop: the code it forwards, given the code `c` it got) -/')
+    for h in ('hopBackendFinal', 'hopModelMgrFinal', 'hopBackendFeasible', 'hopModelMgrFeasible'):
+        o.append('def %s (c : Int) : Int := %s' % (h, hops[h]))
+    o.append('/-- code that reaches the writer of `<stub>.sol` (HandleSolution path) -/')
+    o.append('def finalCodeWritten (a : Answer) : Int := hopModelMgrFinal (hopBackendFinal (codePassed a))')
+    o.append('/-- code that reaches the writer of `<solstub>N.sol`: ReportIntermediateSolution passes SolveCode() -/')
+    o.append('def altCodeWritten (a : Answer) : Int := hopModelMgrFeasible (hopBackendFeasible a.code)')
+    o.append('')
     o.append('/-- unfold every generated definition (used by the proofs in MpVerif.C10) -/')
-    allnames = names + [lean_name(p) for p, _ in preds] + ['objectiveWritten', 'codePassed']
+    allnames = names + [lean_name(p) for p, _ in preds] + ['objectiveWritten', 'codePassed', 'hopBackendFinal', 'hopModelMgrFinal', 'hopBackendFeasible', 'hopModelMgrFeasible', 'finalCodeWritten', 'altCodeWritten']
     o.append('macro "c10_unfold_gen" : tactic => `(tactic| simp only [' + ', '.join(allnames) +
              ', leB_iff, ltB_iff, geB_iff, gtB_iff, eqB_iff, neB_iff, leB_false, ltB_false, geB_false, gtB_false, eqB_false, neB_false, Bool.and_eq_true, Bool.or_eq_true, Bool.not_eq_true\', Bool.not_eq_false\', decide_eq_true_eq, decide_eq_false_iff_not, Bool.or_eq_false_iff, Bool.and_eq_false_imp, ge_iff_le, gt_iff_lt] at *)')
     o.append('')
